@@ -374,14 +374,17 @@ def _one(item):
         return "raised: " + short_exc(e)
     if len(inps) != len(sims):
         return f"{len(inps)} SimInputs for {len(sims)} Sims"
+    import hashlib
+
+    dig = hashlib.sha1()
     for inp, (at, tbn) in zip(inps, sims):
-        if style == "class" and at is attrs:
-            # in class-style definitions unnamed analyses take their attribute name - still "a name"; names given stay
-            pass
         r = check_input(inp, at, tbn, style)
         if r:
             return r
-    return None
+        for part in (inp.an, inp.ctrls, inp.opts):
+            for x in part:
+                dig.update(x.SerializeToString(deterministic=True))
+    return ("ok", dig.hexdigest()[:12])
 
 
 def _bad_tb(variant):
@@ -408,7 +411,11 @@ def run(ctx):
     for it, r in zip(items, res):
         ctx.count(states=1, transitions=2, traces_validated_against_impl=1)
         ctx.fam(it[1] + "/" + it[2], cases=1)
-        ctx.outcome("ok" if r is None else r[:30])
+        if isinstance(r, tuple):
+            ctx.outcome("inp:" + r[1])
+            r = None
+        else:
+            ctx.outcome(r[:30])
         if r:
             kinds = sorted({a[0] for a in it[0]})
             save_t = [a[1] for a in it[0] if a[0] == "save"]
@@ -441,5 +448,6 @@ def replay(body):
             return x
 
         r = _one(([tup(a) for a in c["attrs"]], c["style"], c["listing"]))
+    r = None if isinstance(r, tuple) else r
     print("replay:", r or "holds")
     return 1 if r else 0
